@@ -4,6 +4,7 @@
 
 from __future__ import annotations  # required for docs to alias type annotations
 
+import operator
 import sys
 from math import log, pi, prod
 from types import FunctionType
@@ -626,6 +627,15 @@ def _gen_torch_function_map() -> Dict[FunctionType, FunctionType]:
         if isinstance(unit_fn, FunctionType) and unit_fn_name in torch_objects:
             torch_fn = cast(FunctionType, torch_objects[unit_fn_name])
             function_map[torch_fn] = unit_fn
+    # The same operations under the other names users write and TorchDynamo emits:
+    # `a @ b`, and the `torch.*` twins of `torch.nn.functional` functions
+    # (e.g. nn.RMSNorm is traced as torch.rms_norm)
+    function_map[cast(FunctionType, operator.matmul)] = matmul
+    for name in ("softmax", "rms_norm"):
+        if hasattr(torch, name):
+            function_map[cast(FunctionType, getattr(torch, name))] = getattr(
+                current_module, name
+            )
     return function_map
 
 
